@@ -7,4 +7,11 @@ mkdir -p .work evidence
 cp /repo/Cargo.lock kani/direct/Cargo.lock
 # E1: compile the Kani harness crate (dependencies of mdk-core under the Kani toolchain)
 ( cd kani/direct && cargo kani --target-dir /verif/.work/kani/t0 -Z stubbing --only-codegen >/verif/.work/setup-kani.log 2>&1 ) || { tail -30 /verif/.work/setup-kani.log; exit 1; }
+# E3: build the nightly dependency graph once and cache the MIR dumps of the current tree
+/opt/veriftools/pyvenv/bin/python3 -c "
+import sys; sys.path.insert(0, '/verif')
+from mirsym.mirparse import dump_mir
+for c in ('mdk-core', 'mdk-storage-traits', 'mdk-memory-storage', 'mdk-sqlite-storage'):
+    print(c, dump_mir(c)[1:])
+" > /verif/.work/setup-mir.log 2>&1 || { tail -30 /verif/.work/setup-mir.log; exit 1; }
 echo setup ok
